@@ -1,7 +1,7 @@
 SPECIFICATION GenSpec
 CONSTANTS
   Alphabet = {32, 34, 39, 92}
-  MaxLen = 3
+  MaxLen = 4
   MaxFrag = 3
   MaxDst = 0
   MaxDstFrag = 1
